@@ -5,7 +5,7 @@
   (AHP/Model/Builder.lean).  Helper lemmas: AHP/Lemmas/RoundTrip.lean (token level),
   AHP/Lemmas/LexRoundTrip.lean (character level).
 
-  Raw-text elements (`script` / `style`) are covered at character level: `ToksOK` (= `ListOK`) admits the
+  Raw-text elements (`script` / `style`) are covered at character level: `ToksOK` (= `ListOK`) accepts the
   block start tag / one data token / end tag provided the data nowhere matches the element's closing expression
   `</ ws* name ws* >`, case-insensitively (`RawOK`, `Lemmas/LexRaw.lean` — exactly what `set_cdata_mode`'s
   `interesting` expression searches for); inside, `<`, `&`, tags, comments and references are plain text.
